@@ -8,7 +8,61 @@ import (
 	"go/types"
 )
 
-type symString struct{ b []value }
+type symString struct {
+	b   []value
+	tok *itoaTok // not nil: the decimal rendering of an integer, bytes made on demand
+}
+
+// itoaTok is the lazily materialised decimal rendering of a symbolic
+// integer. Comparing two such strings only needs the integers themselves.
+type itoaTok struct {
+	p     *Path
+	v     symInt
+	bytes []value
+	done  bool
+}
+
+func (t *itoaTok) materialize() []value {
+	if !t.done {
+		t.bytes = t.p.itoaBytes(t.v)
+		t.done = true
+	}
+	return t.bytes
+}
+
+// canonicalDecimal parses s as the canonical decimal spelling of an int64.
+func canonicalDecimal(s string) (int64, bool) {
+	if s == "" {
+		return 0, false
+	}
+	neg := false
+	d := s
+	if s[0] == '-' {
+		neg = true
+		d = s[1:]
+	}
+	if d == "" || len(d) > 19 || (len(d) > 1 && d[0] == '0') || (neg && d == "0") {
+		return 0, false
+	}
+	var u uint64
+	for i := 0; i < len(d); i++ {
+		if d[i] < '0' || d[i] > '9' {
+			return 0, false
+		}
+		u = u*10 + uint64(d[i]-'0')
+	}
+	if neg {
+		if u > 1<<63 {
+			return 0, false
+		}
+		return -int64(u), true
+	}
+	if u > 1<<63-1 {
+		return 0, false
+	}
+	return int64(u), true
+}
+
 
 func strBytes(v value) []value {
 	switch v := v.(type) {
@@ -19,6 +73,9 @@ func strBytes(v value) []value {
 		}
 		return r
 	case symString:
+		if v.tok != nil {
+			return v.tok.materialize()
+		}
 		return v.b
 	}
 	panic(engineBug{fmt.Sprintf("strBytes of %T", v)})
@@ -29,7 +86,7 @@ func strLen(v value) int {
 	case string:
 		return len(v)
 	case symString:
-		return len(v.b)
+		return len(strBytes(v))
 	}
 	panic(engineBug{fmt.Sprintf("strLen of %T", v)})
 }
@@ -40,7 +97,7 @@ func mkStr(b []value) value {
 		if _, ok := x.(uint8); !ok {
 			cp := make([]value, len(b))
 			copy(cp, b)
-			return symString{cp}
+			return symString{b: cp}
 		}
 	}
 	bs := make([]byte, len(b))
@@ -59,6 +116,24 @@ func isStr(v value) bool {
 }
 
 func (p *Path) strEq(x, y value) *Term {
+	// decimal renderings compare like the integers they render
+	xs, xok := x.(symString)
+	ys, yok := y.(symString)
+	if xok && xs.tok != nil && !xs.tok.done {
+		if yok && ys.tok != nil && xs.tok.v.k == ys.tok.v.k {
+			return p.ts.Eq(xs.tok.v.t, ys.tok.v.t)
+		}
+		if cs, ok := y.(string); ok && kindSigned(xs.tok.v.k) && kindWidth(xs.tok.v.k) == 64 {
+			if n, ok := canonicalDecimal(cs); ok {
+				return p.ts.Eq(xs.tok.v.t, p.ts.BV(uint64(n), 64))
+			}
+			return p.ts.Bool(false)
+		}
+	} else if yok && ys.tok != nil && !ys.tok.done {
+		if _, ok := x.(string); ok {
+			return p.strEq(y, x)
+		}
+	}
 	a, b := strBytes(x), strBytes(y)
 	if len(a) != len(b) {
 		return p.ts.Bool(false)
